@@ -359,6 +359,37 @@ def run(prog, tier) -> Result:
         run_stack("R12.3", "Quantity.equiv_amount", "history " + " ".join(f"{op}{j}" if op != "cv" else "convert" for op, j in ops),
                   history(ops), judge_history, min_paths=2)
 
+    # two distinct converter objects with *equal* tables are two registrations: registering the second and removing it
+    # again leaves the first one registered (registration is by identity, whatever the converters' own __eq__ says)
+    tc_ci = prog.cls("TableConverter") if prog.has_cls("TableConverter") else None
+    if tc_ci is not None:
+        def body_twins(I, c):
+            c.st.concrete_registries = True
+            c.new_type("T", **FLAVORS["noref"])
+            u1, u2 = c.unit("u1", "T", kind="base"), c.unit("u2", "T", kind="base")
+            c.st.distinct_units("u1", "u2")
+            f_, o_ = c.num("f", "dec"), c.num("o", "dec")
+            mk = lambda: I.models.instantiate(tc_ci, [ListV([TupleV([u1, u2, f_, o_])])], {}, None)
+            c1, c2 = mk(), mk()
+            cls = ClsV(c.st.tfind("T"))
+            I.call_function(greg, [cls, c1], {})
+            I.call_function(greg, [cls, c2], {})
+            mid = observe(I, cls)
+            I.call_function(grem, [cls, c2], {})
+            c.st.c12 = (c1, c2, mid, observe(I, cls))
+            return NONE
+
+        def judge_twins(o):
+            if o.kind == "raise":
+                return (exc_sig(o), "registering and unregistering a second converter with an equal table")
+            c1, c2, mid, after = o.state.c12
+            if not (len(after) == 1 and after[0] is c1):
+                return ("unregistering a converter removes another converter that merely equals it",
+                        f"registered c1, c2 (equal tables); after removing c2 the registry holds {after!r} (in between: {mid!r})")
+            return None
+        run_stack("R12.3", "QuantityMeta.register_converter/remove_converter", "two converters with equal tables",
+                  body_twins, judge_twins)
+
     # ---- R12.5 a money converter never returns None
     from .c11 import Scenario, reader_setup_for
 
@@ -392,8 +423,9 @@ def run(prog, tier) -> Result:
                 c.new_type("T", **FLAVORS["noref"])
                 u1, u2 = c.unit("u1", "T"), c.unit("u2", "T")
                 st.distinct_units("u1", "u2")
-                mk = lambda tag: ObjV(ci, tag, {"_unit_map": DictV([(TupleV([u1, u2]),
-                                                                      TupleV([c.num("f" + tag, "dec"), c.num("o" + tag, "dec")]))])})
+                # built by the class's own constructor from a one-row table (nothing here names how it is stored)
+                mk = lambda tag: I.models.instantiate(ci, [ListV([TupleV([u1, u2, Num(RF.const(2 if tag == "a" else 3), "dec"),
+                                                                          c.num("o", "dec")])])], {}, None)
             a, b = mk("a"), mk("b")
             eq = I.models.compare(ast.Eq, a, b, None)
             return BoolV(I.models.truth(eq, None))
